@@ -1,4 +1,5 @@
 import ZnVerif.Properties.C16
+import ZnVerif.Properties.C16Eval
 open ZnVerif.Properties.C16
 #print axioms predefined_values_isolated
 #print axioms every_vm_gets_fresh_globals
@@ -7,3 +8,10 @@ open ZnVerif.Properties.C16
 #print axioms handle_is_own
 #print axioms request_runs_its_own_source
 #print axioms old_code_runs_foreign_source
+
+-- evaluator invariant: what stays shared between executions cannot be altered by any program (Properties/C16Eval.lean)
+#print axioms ZnVerif.Properties.C16Eval.fn_cells_immutable
+#print axioms ZnVerif.Properties.C16Eval.fn_cells_immutable_program
+#print axioms ZnVerif.Properties.C16Eval.cells_keep_kind
+#print axioms ZnVerif.Properties.C16Eval.cells_keep_kind_step
+#print axioms ZnVerif.Properties.C16Eval.builtin_values_unchanged_kind
